@@ -647,8 +647,36 @@ func informerAcquireRelease(r *Report, p *Program, rule string) {
 						okD = true
 						for _, cl := range callsTo(dc, false, "informer.ResourceInformer.Close") {
 							if unguarded(dc, nil, cl.Instr.(ssa.Instruction), func(l Lit) bool {
-								_, isNil, isT := l.NilTest()
-								return isT && !isNil
+								v, isNil, isT := l.NilTest()
+								if !isT || isNil {
+									return false
+								}
+								// the tested variable must be the function's error result itself: every
+								// return of the constructor yields exactly that variable
+								ld, isLd := v.(*ssa.UnOp)
+								if !isLd {
+									return false
+								}
+								fv, isFV := ld.X.(*ssa.FreeVar)
+								if !isFV {
+									return false
+								}
+								cell := engine.FreeVarBinding(fv)
+								if cell == nil {
+									return false
+								}
+								idx := engine.ErrorResultIndex(f)
+								for _, b2 := range f.Blocks {
+									for _, in2 := range b2.Instrs {
+										if rt, isR := in2.(*ssa.Return); isR && b2.Comment != "recover" {
+											rl, isL := rt.Results[idx].(*ssa.UnOp)
+											if !isL || rl.X != cell {
+												return false
+											}
+										}
+									}
+								}
+								return true
 							}) != nil {
 								okD = false
 							}
@@ -657,7 +685,7 @@ func informerAcquireRelease(r *Report, p *Program, rule string) {
 				}
 			}
 		}
-		r.Check(rule, FK(f)+"[cleanup-defer]", p.Pos(f.Pos()), okD, "deferred cleanup closes informers iff the constructor fails", "constructor has no deferred cleanup that closes acquired informers exactly when it fails")
+		r.Check(rule, FK(f)+"[cleanup-defer]", p.Pos(f.Pos()), okD, "deferred cleanup closes informers iff the constructor fails", "constructor has no deferred cleanup that closes acquired informers exactly when it fails (the cleanup must test the error that is actually returned — a named result —, not a local that some error returns bypass)")
 	}
 }
 
